@@ -85,7 +85,7 @@ func packageName(profile profile.Profile) string {
 }
 
 func profileName(profile profile.Profile) string {
-	return fmt.Sprintf("report[\"profile\"] = \"%s\"", profile.Name)
+	return fmt.Sprintf("report[\"profile\"] = \"%s\"", regoStringContent(profile.Name))
 }
 
 func entrypoint(profile profile.Profile) string {
